@@ -1,5 +1,6 @@
 import FluentModel.Plural
 import FluentModel.Generated
+import FluentModel.BundleLocale
 /-! Driver of area `num` (C12): see `harness/src/bin/fvh_num.rs` for the case-line format. -/
 namespace FluentModel.Drv.NumDrv
 open FluentModel FluentModel.Num FluentModel.Plural
@@ -133,7 +134,9 @@ def probe : Val → String
 def run (payload : String) : String :=
   if Generated.maxFractionDigits != Num.maxFractionDigits then "const-mismatch MAX_FRACTION_DIGITS" else
   match payload.splitOn " " with
-  | [loc, valTok, optTok, keyTok] =>
+  | [loc0, valTok, optTok, keyTok] =>
+    -- a locale CHAIN `a+b+c`: the plural rules are those of the first locale (`FluentBundle::new`: `locales.first()`)
+    let loc := memoizerLocale (parseLocaleChain loc0)
     if (localeShape loc).isNone then "unsupported" else
     match parseVal valTok, parseOpts optTok, parseKeys keyTok with
     | .bad, _, _ | _, .bad, _ | _, _, none => "bad-case"
